@@ -40,7 +40,7 @@ CLAIMED = {
 
  'C03': ("crash-point enumeration (cut after / instead of every frame of either direction, reset, local Close, Server.Close) x stateless DFS over schedules (deviation-bounded), all server modes",
          "With a gated call, a plain Go call, a ping and a stream with a blocked reader outstanding, the link is cut after or instead of the k-th frame of either direction for every k of the conversation, reset, closed locally or by Server.Close while the traffic is racing; ServeCodec, listener and poll emulation: at quiescence no caller is blocked, every failed call carries ErrShutdown (or the error of its own failed write), successful ones carry their own reply, a blocked stream reader gets ErrStreamShutdown and a call started afterwards returns ErrShutdown without blocking.",
-         "message-level cuts (byte-level cuts through the real framing are covered by the byte-pipe scenario when listed in the evidence); 'bounded time' = needs no further event; bounds d<=1 quick / d<=2 thorough", "5 C03"),
+         "byte level: a cut (EOF or reset) after every byte offset of either direction of a three-call conversation through the real (instrumented) hslam/socket framing over a byte pipe (default schedule quick, d<=1 thorough); message level: cuts after/instead of every frame; 'bounded time' = needs no further event; bounds d<=2 quick / d<=3 thorough", "5 C03"),
  'C04': ("complete enumeration of request scripts x server modes x drop points + stateless DFS over schedules (deviation-bounded), scripted raw client counting frames on the wire",
          "A scripted raw client sends every handler shape, pings, stream open/data/close and an unknown method in 5 scripts, stays or disappears after each frame, against ServeCodec/listener/poll(1,2 workers) x {plain, pipelining, direct I/O} x {default, code} headers: each delivered request is executed exactly once with the arguments sent, nothing runs for requests never sent, pings run no handler, exactly one response frame per request (never two); a call whose response is lost with the connection fails and is not re-executed (directly and through Transport).",
          "a stream close is written after the handler has drained earlier data frames (closing discards unread messages); bounds d<=2 quick / d<=3 thorough", "5 C04"),
@@ -60,7 +60,7 @@ CLAIMED = {
 
  'C01': ("stateless DFS over thread schedules of real Conn + Server.ServeCodec (deviation-bounded), discriminating payloads",
          "2-3 concurrent callers (all call forms, sizes below/at/above every buffer, a reply twice the request) against gated handlers released in every order, all four header encoders, server pipelining/direct I/O, client direct I/O/pipelining, two connections on one server with colliding sequence numbers, follow-up traffic; every interleaving with at most d deviations runs the real code and every successful reply must equal F(own arguments) byte for byte, also after the follow-up calls.",
-         "message-level transport model (fragmentation is covered by the byte-pipe scenarios when present in the evidence); bounds d<=2 quick / d<=3 thorough", "5 C01"),
+         "fragmentation: every single split offset (thorough: pairs of offsets, and d<=1) of either direction of a two-call conversation through the real (instrumented) hslam/socket length-prefix framing over a byte pipe, with 1-byte / 3-byte / unlimited reads; everything else over the message-level pipe; bounds d<=2 quick / d<=3 thorough", "5 C01"),
  'C05': ("stateless DFS over thread schedules of pipelined real Conn + Server (deviation-bounded)",
          "3-4 asynchronous Go calls of different sizes (every second one failing in the handler, handlers with internal scheduling points) on one shared Done channel, server pipelining on, client pipelining off/on, direct I/O off/on, plus two pipelined connections on one server (one stalled): handler start order, non-overlap, response wire order and (with client pipelining) completion order must equal issue order in every explored interleaving.",
          "poll-mode variants are listed in the evidence when the poll emulation scenarios are present; bounds d<=2 quick / d<=3 thorough", "5 C05"),
